@@ -496,6 +496,18 @@ func (cs *Contracts) parseFile(path, src string) error {
 			cur.NoStores = append(cur.NoStores, strings.Fields(rest)...)
 		case "full-loop":
 			cur.FullLoops = append(cur.FullLoops, rest)
+		case "after-loop":
+			// after-loop <callee> <loopkey>[#n]
+			f := strings.Fields(rest)
+			if len(f) != 2 {
+				return fmt.Errorf("%s:%d: after-loop <callee> <loopkey>[#n]", path, ln)
+			}
+			al := &AfterLoop{Callee: f[0], LoopKey: f[1], Nth: 1}
+			if k := strings.LastIndex(f[1], "#"); k >= 0 {
+				al.LoopKey = f[1][:k]
+				fmt.Sscan(f[1][k+1:], &al.Nth)
+			}
+			cur.AfterLoops = append(cur.AfterLoops, al)
 		case "confine":
 			// confine <param> [to <callee> ...]
 			f := strings.Fields(rest)
